@@ -17,7 +17,13 @@
 use crate::errors::{Error, Result};
 use crate::types::Creation;
 use erltf::types::{Atom, ExternalPid};
+#[cfg(edp_rs_verif_loom)]
+use loom::sync::Mutex;
+#[cfg(edp_rs_verif_loom)]
+use loom::sync::atomic::{AtomicU32, AtomicU64, Ordering};
+#[cfg(not(edp_rs_verif_loom))]
 use std::sync::Mutex;
+#[cfg(not(edp_rs_verif_loom))]
 use std::sync::atomic::{AtomicU32, AtomicU64, Ordering};
 
 const MAX_PROCESSES_PER_NODE: u32 = 1_048_576;
